@@ -188,6 +188,10 @@ inductive Schema where
   | byType (alts : List (Nat × List Ty × Schema)) (many : Option (Nat × List Schema))
   /-- hand-written `[variant, field..]` sum (definite array, variant read with `u8`/`u16`) -/
   | sumFixed (idxBits : Nat) (vs : List (Nat × List Schema))
+  /-- hand-written sum with a catch-all variant `Other(u8, payload..)`, declared last (Byron `TxIn`,
+      `Twit`, `TxFeePol`): the listed variants as in `sumFixed`, every other variant number `x`
+      is `Other(x, ..)` -/
+  | sumOther (idxBits : Nat) (vs : List (Nat × List Schema)) (other : List Schema)
   /-- `KeepRaw<T>` -/
   | keepRaw (s : Schema)
   /-- `Nullable<T>`: `Some` / `Null` / `Undefined` (declaration order) -/
@@ -693,6 +697,37 @@ def decSumFixed (d : Schema → Item → Option Value) (idxBits : Nat) (vs : Lis
     else none
   | _ => none
 
+/-- the catch-all variant holds a number that no listed variant uses (the source comments say
+    `u8 .ne 0` / `u8 .gt 2`; a value like `TxIn::Other(0, ..)` would decode as `Variant0`) -/
+def encSumOther (e : Schema → Value → Option Item) (idxBits : Nat) (vs : List (Nat × List Schema)) (other : List Schema) :
+    Value → Option Item
+  | .variant pos fields =>
+    if pos < vs.length then encSumFixed e vs (.variant pos fields)
+    else if pos = vs.length then
+      match fields with
+      | .nat x :: rest =>
+        if x < 2 ^ idxBits ∧ (vs.all (fun v => v.1 != x)) = true then
+          (zipOpt e other rest).map (fun xs => mkArray (mkUInt x :: xs))
+        else none
+      | _ => none
+    else none
+  | _ => none
+
+def decSumOther (d : Schema → Item → Option Value) (idxBits : Nat) (vs : List (Nat × List Schema)) (other : List Schema) :
+    Item → Option Value
+  | .seq h (x :: xs) =>
+    if h.major = 4 then
+      match x.uint? with
+      | some i =>
+        if i < 2 ^ idxBits then
+          match findVariant (i : Int) 0 vs with
+          | some (pos, fs) => (zipOpt d fs xs).map (.variant pos)
+          | none => (zipOpt d other xs).map (fun ws => .variant vs.length (.nat i :: ws))
+        else none
+      | none => none
+    else none
+  | _ => none
+
 /-! ### pallas-codec wrappers -/
 
 def encKeepRaw (e : Value → Option Item) : Value → Option Item
@@ -818,6 +853,7 @@ def enc (env : Env) : Nat → Schema → Value → Option Item
     | .enumIdx vs => encEnumIdx vs v
     | .byType alts many => encByType (enc env f) alts many v
     | .sumFixed _ vs => encSumFixed (enc env f) vs v
+    | .sumOther b vs o => encSumOther (enc env f) b vs o v
     | .keepRaw s => encKeepRaw (enc env f s) v
     | .nullable s => encNullable (enc env f s) v
     | .set s => encSet (enc env f s) v
@@ -858,6 +894,7 @@ def dec (env : Env) : Nat → Schema → Item → Option Value
     | .enumIdx vs => decEnumIdx vs it
     | .byType alts many => decByType (dec env f) alts many it
     | .sumFixed b vs => decSumFixed (dec env f) b vs it
+    | .sumOther b vs o => decSumOther (dec env f) b vs o it
     | .keepRaw s => decKeepRaw (dec env f s) it
     | .nullable s => decNullable (dec env f s) it
     | .set s => decSet (dec env f s) it
@@ -918,6 +955,7 @@ def kinds (env : Env) : Schema → List Ty
   | .enumIdx _ => [.u8, .u16, .u32, .u64]
   | .byType alts many => byTypeKinds alts many
   | .sumFixed _ _ => [.array]
+  | .sumOther _ _ _ => [.array]
   | .keepRaw s => kinds env s
   | .nullable s => .null :: .undefined :: kinds env s
   | .set _ => [.tag]
@@ -959,6 +997,7 @@ def noRaw (env : Env) : Nat → Schema → Bool
     | .enumFlat vs => vs.all (fun v => v.2.all (fun p => noRaw env f p.2))
     | .byType alts many => alts.all (fun a => noRaw env f a.2.2) && (match many with | some m => m.2.all (noRaw env f) | none => true)
     | .sumFixed _ vs => vs.all (fun v => v.2.all (noRaw env f))
+    | .sumOther _ vs o => vs.all (fun v => v.2.all (noRaw env f)) && o.all (noRaw env f)
     | .keepRaw _ => false
     | .ref i => match env.types[i]? with | some en => en.noRaw | none => false
     | .custom _ => false
@@ -997,6 +1036,10 @@ def ok (env : Env) : Nat → Schema → Bool
           | none => true)
     | .sumFixed b vs =>
       (b == 8 || b == 16) && distinctNats (vs.map (·.1)) && vs.all (fun v => decide (v.1 < 2 ^ b) && decide (v.2.length < 2 ^ 63) && v.2.all (ok env f))
+    | .sumOther b vs o =>
+      (b == 8 || b == 16) && distinctNats (vs.map (·.1))
+      && vs.all (fun v => decide (v.1 < 2 ^ b) && decide (v.2.length < 2 ^ 63) && v.2.all (ok env f))
+      && decide (o.length < 2 ^ 63) && o.all (ok env f)
     | .keepRaw s => ok env f s
     | .nullable s => ok env f s && !(kinds env s).contains .null && !(kinds env s).contains .undefined
     | .set s => ok env f s
